@@ -204,7 +204,7 @@ def run(rep, tier, seed):
                                "input_header_hex": m["gh"].hex()})
     rep.cov["distinct_nontrivial"] = len({(m["src"], len(m["pk"]), m["skip"]) for m in metas if m["prog"]["filters"] or m["prog"]["hasEnd"]})
     rep.cov["rule"] = ("random streams (0-40 Ethernet/IPv4 packets, both magics, snaplen 96..262144 or exactly the longest captured length, linktype 1/101, versions, zone) x "
-                       "random programs of 0-4 filters over the FilterMode vocabulary, with / without end filter and -s; distinct = "
+                       "random programs of 0-4 filters over the FilterMode vocabulary (a fifth ending in a filter whose pattern is not a boolean), with / without end filter and -s; distinct = "
                        "distinct (program, packet count, -s); non-trivial = the program has a filter or an end filter")
     rep.cov["exhaustive"] = False
     rep.sample({"program": metas[0]["src"], "packets": len(metas[0]["pk"]), "observed": metas[0]["observed"]})
